@@ -44,6 +44,9 @@ pub enum Op {
     /// of it (`from_end`: the chunk is taken from the end of the range; `size`: 0 = one block,
     /// 1 = half the range, 2 = the whole range)
     Client { from_end: bool, size: u8 },
+    /// what building a spend does to the trees: `witness_at_checkpoint_id_caching` for every mined
+    /// wallet note at the newest checkpoint (the computed subtree roots are cached in the tree's cap)
+    Witness,
 }
 
 #[derive(Clone, Debug, Default, PartialEq, Eq)]
@@ -88,6 +91,8 @@ pub struct Cfg {
     pub with_client: bool,
     /// Offer rewind_to_chain_state (queue-level model only: use with the C15 oracle).
     pub with_rewind_state: bool,
+    /// Offer the caching Merkle-path computation a spend performs.
+    pub with_witness: bool,
     /// Offer free-form scans of every contiguous run of segments.
     pub free_scans: bool,
     /// Offer scans of single segments (when `free_scans` is off).
@@ -209,6 +214,28 @@ pub enum StepResult {
     Refused(String),
 }
 
+/// Set by the C06 check: every Scan operation also compares the checkpoint heights it added per pool.
+pub static TRACK_SCAN_CHECKPOINTS: std::sync::atomic::AtomicBool = std::sync::atomic::AtomicBool::new(false);
+
+fn checkpoint_ids(w: &Wallet, p: Pool) -> BTreeSet<u32> {
+    db::query_rows(w.db.conn(), &format!("SELECT checkpoint_id FROM {}_tree_checkpoints", p.prefix())).iter().map(|r| r.parse::<u32>().unwrap()).collect()
+}
+
+/// The height from which pruning may not have removed anything in any pool: the oldest of the 100
+/// (PRUNING_DEPTH) newest prunable checkpoints - those outside the retained anchor grid - of a pool
+/// that holds at least that many; 0 when no pool does.
+fn pruning_floor(w: &Wallet, cp_sets: &[BTreeSet<u32>]) -> u32 {
+    let mut floor = 0u32;
+    for (i, p) in POOLS.iter().enumerate() {
+        let retained: BTreeSet<u32> = db::query_rows(w.db.conn(), &format!("SELECT checkpoint_id FROM {}_tree_retained_checkpoints", p.prefix())).iter().map(|r| r.parse::<u32>().unwrap()).collect();
+        let prunable: Vec<u32> = cp_sets[i].iter().copied().filter(|h| !retained.contains(h)).collect();
+        if prunable.len() >= 100 {
+            floor = floor.max(prunable[prunable.len() - 100]);
+        }
+    }
+    floor
+}
+
 pub fn apply(w: &mut Wallet, u: &Universe, m: &Model, op: &Op) -> Result<StepResult, String> {
     match op {
         Op::Roots => {
@@ -233,6 +260,27 @@ pub fn apply(w: &mut Wallet, u: &Universe, m: &Model, op: &Op) -> Result<StepRes
             let mut n = m.clone();
             n.roots_put = true;
             Ok(StepResult::Done(n))
+        }
+        Op::Witness => {
+            let mined = mined_map(u, m);
+            for p in POOLS {
+                let top: Option<u32> = db::query_rows(w.db.conn(), &format!("SELECT MAX(checkpoint_id) FROM {}_tree_checkpoints", p.prefix())).first().and_then(|r| r.parse().ok());
+                let Some(top) = top else { continue };
+                let notes: Vec<(u64, [u8; 32])> = u.notes.iter().filter(|n| n.pool == p && n.owner != Owner::Foreign && mined.contains_key(&n.txid)).map(|n| (n.position, n.cm)).collect();
+                let got = caching_witness_roots(w, p, top, &notes)?;
+                // a path that is produced must verify against the chain's root at that checkpoint
+                if top + 1 != u.first && u.chains[m.chain].blocks.contains_key(&top) {
+                    let truth = truth_root(u, m.chain, p, top);
+                    for ((pos, _), r) in notes.iter().zip(got.iter()) {
+                        if let Some(r) = r {
+                            if *r != truth && m.scanned.contains(&top) {
+                                return Err(format!("{p:?} Merkle path (caching API) of note at position {pos} at checkpoint {top} yields root {} instead of {}; scanned={:?}", hex::encode(r), hex::encode(truth), m.scanned));
+                            }
+                        }
+                    }
+                }
+            }
+            Ok(StepResult::Done(m.clone()))
         }
         Op::RewindState { h } => {
             let st = if *h + 1 == u.first { u.genesis.clone() } else { u.chains[m.chain].blocks[h].state_after.clone() };
@@ -291,24 +339,36 @@ pub fn apply(w: &mut Wallet, u: &Universe, m: &Model, op: &Op) -> Result<StepRes
             let src = u.source(m.chain);
             let from_state = u.state_before(m.chain, *from).clone();
             let limit = (*to - *from + 1) as usize;
+            let track = TRACK_SCAN_CHECKPOINTS.load(Ordering::Relaxed);
+            let before: Vec<BTreeSet<u32>> = if track { POOLS.iter().map(|p| checkpoint_ids(w, *p)).collect() } else { vec![] };
             let r = mc_core::catch(|| scan_cached_blocks(&u.network, &src, &mut w.db, BlockHeight::from_u32(*from), &from_state, limit));
             match r {
                 Err(p) => Err(format!("panic in scan_cached_blocks({from}..={to}): {p}")),
                 Ok(Err(e)) => {
                     let txt = format!("{e:?}");
-                    if m.rewinds > 0 && txt.contains("PutBlocksCommitmentTree") && txt.contains("Insert(Conflict") {
-                        // Recorded finding (see known_findings.json, DESIGN.md section 6): after a
-                        // tip-first scan, truncation leaves a stale annotated node in the shard and a
-                        // later frontier insertion on the other branch conflicts with it. The scan is
-                        // refused atomically; C15 reports it (sync cannot proceed from that end).
-                        return Ok(StepResult::Refused(format!("{TREE_CONFLICT_SIG}: scan_cached_blocks({from}..={to}) failed: {txt}")));
-                    }
                     Err(format!("scan_cached_blocks({from}..={to}) on a well-formed connected chain failed: {txt}"))
                 }
                 Ok(Ok(summary)) => {
                     let got = (u32::from(summary.scanned_range().start), u32::from(summary.scanned_range().end));
                     if got != (*from, *to + 1) {
                         return Err(format!("scan summary range {:?} != requested {}..{}", got, from, to + 1));
+                    }
+                    if track {
+                        // C06: one scan checkpoints every pool at the same heights (put_blocks: the
+                        // missing checkpoints of each pool are inserted). Compared from the pruning
+                        // floor up: a pool holding its full budget of prunable checkpoints has dropped
+                        // older ones, which an idle pool does only on its next insertion.
+                        let after: Vec<BTreeSet<u32>> = POOLS.iter().map(|p| checkpoint_ids(w, *p)).collect();
+                        let floor = pruning_floor(w, &after);
+                        // every height at which this scan created a checkpoint in some pool ...
+                        let created: BTreeSet<u32> = (0..3).flat_map(|i| after[i].difference(&before[i]).copied().collect::<Vec<_>>()).filter(|h| *h >= floor).collect();
+                        // ... is a checkpoint of every pool afterwards
+                        for (i, p) in POOLS.iter().enumerate() {
+                            let missing: Vec<u32> = created.iter().copied().filter(|h| !after[i].contains(h)).take(4).collect();
+                            if !missing.is_empty() {
+                                return Err(format!("scan {from}..={to} created checkpoints at heights {missing:?} in another pool but the {p:?} tree has none there (compared from height {floor} up)"));
+                            }
+                        }
                     }
                     let mut n = m.clone();
                     for h in *from..=*to {
@@ -412,6 +472,9 @@ pub fn enabled(u: &Universe, cfg: &Cfg, m: &Model) -> Vec<Op> {
             }
         }
     }
+    if cfg.with_witness && !m.scanned.is_empty() {
+        ops.push(Op::Witness);
+    }
     let maxs = m.scanned.iter().next_back().copied();
     for &h in &cfg.tips {
         let lo = m.tip.unwrap_or(0).max(maxs.unwrap_or(0));
@@ -435,7 +498,10 @@ pub fn enabled(u: &Universe, cfg: &Cfg, m: &Model) -> Vec<Op> {
                     for (ci, c) in u.chains.iter().enumerate() {
                         // the other chain must share every block up to h with the current one
                         let shared = if ci == m.chain { u32::MAX } else { c.fork_height.min(u.chains[m.chain].fork_height) };
-                        if h <= shared {
+                        // subtree roots supplied for one chain are not facts about a branch on which
+                        // those shards were completed with other leaves
+                        let stale_roots = m.roots_put && ci != m.chain && completed_roots_differ(u, m.chain, ci);
+                        if h <= shared && !stale_roots {
                             ops.push(Op::Rewind { h, switch: ci });
                         }
                     }
@@ -709,26 +775,31 @@ type TreeErr = shardtree::error::ShardTreeError<zcash_client_sqlite::wallet::com
 
 /// For one pool: (checkpoint id -> root as computed by the wallet (None = not computable)),
 /// and for each (note position, checkpoint) the Merkle-path root recomputed from the leaf.
-fn pool_view(w: &mut Wallet, p: Pool, ids: &[u32], notes: &[(u64, [u8; 32])]) -> Result<(Vec<Option<[u8; 32]>>, Vec<Vec<Option<[u8; 32]>>>), String> {
+/// Roots and Merkle-path roots at the wanted (checkpoint, note) pairs only; unwanted entries are `None`.
+fn pool_view(w: &mut Wallet, p: Pool, ids: &[u32], notes: &[(u64, [u8; 32])], want: &Want) -> Result<(Vec<Option<[u8; 32]>>, Vec<Vec<Option<[u8; 32]>>>), String> {
     let ids: Vec<BlockHeight> = ids.iter().map(|h| BlockHeight::from_u32(*h)).collect();
     let r = mc_core::catch(|| -> Result<_, TreeErr> {
         match p {
             Pool::Sapling => w.db.with_sapling_tree_mut(|t| {
-                let roots = ids.iter().map(|id| t.root_at_checkpoint_id(id).ok().flatten().map(|r| r.to_bytes())).collect::<Vec<_>>();
+                let roots = ids.iter().enumerate().map(|(i, id)| if want.root[i] { t.root_at_checkpoint_id(id).ok().flatten().map(|r| r.to_bytes()) } else { None }).collect::<Vec<_>>();
                 let wit = notes
                     .iter()
-                    .map(|(pos, cm)| {
+                    .enumerate()
+                    .map(|(ni, (pos, cm))| {
                         let leaf = Option::<sapling::Node>::from(sapling::Node::from_bytes(*cm)).expect("cmu");
-                        ids.iter().map(|id| t.witness_at_checkpoint_id(Position::from(*pos), id).ok().flatten().map(|path| path.root(leaf).to_bytes())).collect::<Vec<_>>()
+                        ids.iter()
+                            .enumerate()
+                            .map(|(i, id)| if want.wit[ni][i] { t.witness_at_checkpoint_id(Position::from(*pos), id).ok().flatten().map(|path| path.root(leaf).to_bytes()) } else { None })
+                            .collect::<Vec<_>>()
                     })
                     .collect::<Vec<_>>();
                 Ok::<_, TreeErr>((roots, wit))
             }),
             Pool::Orchard | Pool::Ironwood => {
                 if p == Pool::Orchard {
-                    w.db.with_orchard_tree_mut(|t| Ok::<_, TreeErr>(orch_view(t, &ids, notes)))
+                    w.db.with_orchard_tree_mut(|t| Ok::<_, TreeErr>(orch_view(t, &ids, notes, want)))
                 } else {
-                    w.db.with_ironwood_tree_mut(|t| Ok::<_, TreeErr>(orch_view(t, &ids, notes))).map(|o| o.expect("the SQLite wallet tracks an Ironwood tree"))
+                    w.db.with_ironwood_tree_mut(|t| Ok::<_, TreeErr>(orch_view(t, &ids, notes, want))).map(|o| o.expect("the SQLite wallet tracks an Ironwood tree"))
                 }
             }
         }
@@ -742,19 +813,97 @@ fn pool_view(w: &mut Wallet, p: Pool, ids: &[u32], notes: &[(u64, [u8; 32])]) ->
 
 type View = (Vec<Option<[u8; 32]>>, Vec<Vec<Option<[u8; 32]>>>);
 
-fn orch_view<S>(t: &mut shardtree::ShardTree<S, 32, 16>, ids: &[BlockHeight], notes: &[(u64, [u8; 32])]) -> View
+/// Which (checkpoint) roots and (note, checkpoint) Merkle paths a state evaluation asks for.
+struct Want {
+    root: Vec<bool>,
+    wit: Vec<Vec<bool>>,
+}
+
+fn orch_view<S>(t: &mut shardtree::ShardTree<S, 32, 16>, ids: &[BlockHeight], notes: &[(u64, [u8; 32])], want: &Want) -> View
 where
     S: shardtree::store::ShardStore<H = MerkleHashOrchard, CheckpointId = BlockHeight>,
 {
-    let roots = ids.iter().map(|id| t.root_at_checkpoint_id(id).ok().flatten().map(|r| r.to_bytes())).collect::<Vec<_>>();
+    let tp = Instant::now();
+    let roots = ids.iter().enumerate().map(|(i, id)| if want.root[i] { t.root_at_checkpoint_id(id).ok().flatten().map(|r| r.to_bytes()) } else { None }).collect::<Vec<_>>();
+    prof(6, tp);
+    let _tw = ProfGuard(7, Instant::now());
     let wit = notes
         .iter()
-        .map(|(pos, cm)| {
+        .enumerate()
+        .map(|(ni, (pos, cm))| {
             let leaf = Option::<MerkleHashOrchard>::from(MerkleHashOrchard::from_bytes(cm)).expect("cmx");
-            ids.iter().map(|id| t.witness_at_checkpoint_id(Position::from(*pos), id).ok().flatten().map(|path| path.root(leaf).to_bytes())).collect::<Vec<_>>()
+            ids.iter()
+                .enumerate()
+                .map(|(i, id)| if want.wit[ni][i] { t.witness_at_checkpoint_id(Position::from(*pos), id).ok().flatten().map(|path| path.root(leaf).to_bytes()) } else { None })
+                .collect::<Vec<_>>()
         })
         .collect::<Vec<_>>();
     (roots, wit)
+}
+
+fn completed_roots_differ(u: &Universe, a: usize, b: usize) -> bool {
+    let roots = |c: usize| -> Vec<(Pool, u64, Vec<u8>)> {
+        let mut v: Vec<(Pool, u64, Vec<u8>)> = u.chains[c]
+            .blocks
+            .values()
+            .flat_map(|bl| {
+                bl.completed.iter().map(|(p, i, r)| {
+                    (
+                        *p,
+                        *i,
+                        match r {
+                            crate::universe::ShardRoot::Sapling(n) => n.to_bytes().to_vec(),
+                            crate::universe::ShardRoot::Orchard(n) => n.to_bytes().to_vec(),
+                        },
+                    )
+                })
+            })
+            .collect();
+        v.sort_by(|x, y| (x.0 as u8, x.1).cmp(&(y.0 as u8, y.1)));
+        v
+    };
+    roots(a) != roots(b)
+}
+
+/// `witness_at_checkpoint_id_caching` for each note at checkpoint `top`: the root each produced path
+/// yields (None = no path).
+fn caching_witness_roots(w: &mut Wallet, p: Pool, top: u32, notes: &[(u64, [u8; 32])]) -> Result<Vec<Option<[u8; 32]>>, String> {
+    let id = BlockHeight::from_u32(top);
+    let r = mc_core::catch(|| -> Result<_, TreeErr> {
+        match p {
+            Pool::Sapling => w.db.with_sapling_tree_mut(|t| {
+                Ok::<_, TreeErr>(
+                    notes
+                        .iter()
+                        .map(|(pos, cm)| {
+                            let leaf = Option::<sapling::Node>::from(sapling::Node::from_bytes(*cm)).expect("cmu");
+                            t.witness_at_checkpoint_id_caching(Position::from(*pos), &id).ok().flatten().map(|path| path.root(leaf).to_bytes())
+                        })
+                        .collect::<Vec<_>>(),
+                )
+            }),
+            Pool::Orchard => w.db.with_orchard_tree_mut(|t| Ok::<_, TreeErr>(orch_caching(t, &id, notes))),
+            Pool::Ironwood => w.db.with_ironwood_tree_mut(|t| Ok::<_, TreeErr>(orch_caching(t, &id, notes))).map(|o| o.expect("the SQLite wallet tracks an Ironwood tree")),
+        }
+    });
+    match r {
+        Err(p_) => Err(format!("panic while computing {p:?} Merkle paths (caching): {p_}")),
+        Ok(Err(e)) => Err(format!("{p:?} tree access failed: {e:?}")),
+        Ok(Ok(v)) => Ok(v),
+    }
+}
+
+fn orch_caching<S>(t: &mut shardtree::ShardTree<S, 32, 16>, id: &BlockHeight, notes: &[(u64, [u8; 32])]) -> Vec<Option<[u8; 32]>>
+where
+    S: shardtree::store::ShardStore<H = MerkleHashOrchard, CheckpointId = BlockHeight>,
+{
+    notes
+        .iter()
+        .map(|(pos, cm)| {
+            let leaf = Option::<MerkleHashOrchard>::from(MerkleHashOrchard::from_bytes(cm)).expect("cmx");
+            t.witness_at_checkpoint_id_caching(Position::from(*pos), id).ok().flatten().map(|path| path.root(leaf).to_bytes())
+        })
+        .collect()
 }
 
 fn truth_root(u: &Universe, chain: usize, p: Pool, h: u32) -> [u8; 32] {
@@ -777,19 +926,44 @@ pub fn check_trees(w: &mut Wallet, cx: &Ctx, m: &Model) -> Result<Vec<String>, S
         let ids: BTreeSet<u32> = db::query_rows(w.db.conn(), &format!("SELECT checkpoint_id FROM {}_tree_checkpoints", p.prefix())).iter().map(|r| r.parse::<u32>().unwrap()).collect();
         cp_sets.push(ids);
     }
-    // (1) same checkpoint heights in all pools
-    if cp_sets[0] != cp_sets[1] || cp_sets[1] != cp_sets[2] {
-        let sym = |a: &BTreeSet<u32>, b: &BTreeSet<u32>| a.symmetric_difference(b).copied().take(4).collect::<Vec<_>>();
+    // (1) same checkpoint heights in all pools, from a floor upwards. Below it the sets may differ for
+    // two documented reasons: a pool that holds its full budget of prunable checkpoints (PRUNING_DEPTH
+    // = 100, the retained grid is exempt) has dropped older ones while an idle pool is pruned only
+    // when it next receives a commitment; and a rewind below every checkpoint a pool retains resets
+    // that pool (TreeTruncation::ResetToSubtreeRoots), which then lacks the old checkpoints the other
+    // pools keep. The floor is the larger of the pruning floor and the newest "oldest checkpoint" of
+    // any pool. (What each single scan adds is compared per pool in `apply`.)
+    let mut floor = pruning_floor(w, &cp_sets);
+    if floor > 0 {
+        outcomes.push("checkpoints:pool-at-capacity".into());
+    }
+    if m.rewinds > 0 {
+        for s in &cp_sets {
+            if let Some(lo) = s.iter().next() {
+                floor = floor.max(*lo);
+            }
+        }
+    }
+    let window = |s: &BTreeSet<u32>| s.range(floor..).copied().collect::<BTreeSet<u32>>();
+    // A rewind below every checkpoint a pool retains resets that pool's tree to its completed subtree
+    // roots (TreeTruncation::ResetToSubtreeRoots, documented in wallet.rs): it then holds no checkpoint
+    // at all until the next scan re-creates them, and is left out of the comparison.
+    let live: Vec<&BTreeSet<u32>> = cp_sets.iter().filter(|s| !(m.rewinds > 0 && s.is_empty())).collect();
+    if live.len() < 3 {
+        outcomes.push("checkpoints:pool-reset-by-rewind".into());
+    }
+    if live.windows(2).any(|p| window(p[0]) != window(p[1])) {
+        let sym = |a: &BTreeSet<u32>, b: &BTreeSet<u32>| window(a).symmetric_difference(&window(b)).copied().take(4).collect::<Vec<_>>();
         return Err(format!(
-            "pools are checkpointed at different heights: sapling^orchard={:?} orchard^ironwood={:?}; scanned={:?}",
+            "pools are checkpointed at different heights (compared from height {floor} up): sapling^orchard={:?} orchard^ironwood={:?}; scanned={:?}",
             sym(&cp_sets[0], &cp_sets[1]),
             sym(&cp_sets[1], &cp_sets[2]),
             m.scanned
         ));
     }
-    let ids: Vec<u32> = cp_sets[0].iter().copied().collect();
     // (2) no checkpoint at a height the wallet has not scanned on the current chain (genesis excepted)
-    for h in &ids {
+    let all_ids: BTreeSet<u32> = cp_sets.iter().flatten().copied().collect();
+    for h in &all_ids {
         // a scan starting at h+1 also checkpoints the frontier it was given for the end of block h
         if *h + 1 != u.first && !m.scanned.contains(h) && !m.scanned.contains(&(*h + 1)) {
             return Err(format!("checkpoint at height {h}, which is neither a scanned block of the current chain nor the block before one (scanned={:?})", m.scanned));
@@ -800,11 +974,43 @@ pub fn check_trees(w: &mut Wallet, cx: &Ctx, m: &Model) -> Result<Vec<String>, S
     while m.scanned.contains(&(contiguous_to + 1)) {
         contiguous_to += 1;
     }
-    for p in POOLS {
+    for (pi, p) in POOLS.into_iter().enumerate() {
+        let ids: Vec<u32> = cp_sets[pi].iter().copied().collect();
         let notes: Vec<&crate::universe::NoteInfo> = u.notes.iter().filter(|n| n.pool == p && n.owner != Owner::Foreign && mined.contains_key(&n.txid)).collect();
         let npos: Vec<(u64, [u8; 32])> = notes.iter().map(|n| (n.position, n.cm)).collect();
-        let (roots, wits) = pool_view(w, p, &ids, &npos)?;
+        // with `witness_subset` on, roots are evaluated at the first two, the last two and two
+        // evenly spread retained checkpoints (all of them when there are at most twelve; a root over a
+        // shard of n fresh leaves costs n Sinsemilla / Pedersen hashes), and each
+        // note's Merkle path at the first two, the middle and the last two retained checkpoints at or
+        // above its height that are among those
+        let root_pick: BTreeSet<usize> = if cx.cfg.witness_subset > 0 && ids.len() > 12 {
+            let k = ids.len();
+            (0..2).chain(k - 2..k).chain((1..3).map(|j| j * k / 3)).collect()
+        } else {
+            (0..ids.len()).collect()
+        };
+        let wit_pick: Vec<Vec<bool>> = notes
+            .iter()
+            .map(|n| {
+                let eligible: Vec<usize> = (0..ids.len()).filter(|i| ids[*i] >= n.height).collect();
+                if cx.cfg.witness_subset > 0 {
+                    let k = eligible.len();
+                    let pick: BTreeSet<usize> = [0usize, 1, k / 2, k.saturating_sub(2), k.saturating_sub(1)].iter().filter_map(|i| eligible.get(*i).copied()).collect();
+                    (0..ids.len()).map(|i| pick.contains(&i)).collect()
+                } else {
+                    (0..ids.len()).map(|i| eligible.contains(&i)).collect()
+                }
+            })
+            .collect();
+        let wit_pick = if std::env::var("VERIF_NO_WIT").is_ok() { wit_pick.iter().map(|v| vec![false; v.len()]).collect() } else { wit_pick };
+        let want = Want { root: (0..ids.len()).map(|i| root_pick.contains(&i) || wit_pick.iter().any(|v| v[i])).collect(), wit: wit_pick };
+        let tp = Instant::now();
+        let (roots, wits) = pool_view(w, p, &ids, &npos, &want)?;
+        prof(5, tp);
         for (i, h) in ids.iter().enumerate() {
+            if !want.root[i] {
+                continue;
+            }
             let truth = truth_root(u, m.chain, p, *h);
             match roots[i] {
                 Some(r) if r == truth => outcomes.push(format!("root:ok:{p:?}")),
@@ -819,16 +1025,8 @@ pub fn check_trees(w: &mut Wallet, cx: &Ctx, m: &Model) -> Result<Vec<String>, S
                 }
             }
             for (ni, n) in notes.iter().enumerate() {
-                if *h < n.height {
+                if !want.wit[ni][i] {
                     continue;
-                }
-                if cx.cfg.witness_subset > 0 {
-                    let eligible: Vec<u32> = ids.iter().copied().filter(|c| *c >= n.height).collect();
-                    let k = eligible.len();
-                    let pick: BTreeSet<u32> = [0usize, 1, k / 2, k.saturating_sub(2), k.saturating_sub(1)].iter().filter_map(|i| eligible.get(*i).copied()).collect();
-                    if !pick.contains(h) {
-                        continue;
-                    }
                 }
                 let unspent = !sp.get(&n.id).map(|v| v.iter().any(|t| mined.contains_key(t))).unwrap_or(false);
                 match wits[ni][i] {
@@ -861,12 +1059,13 @@ pub fn check_trees(w: &mut Wallet, cx: &Ctx, m: &Model) -> Result<Vec<String>, S
         let act = u32::from(act);
         for h in &m.scanned {
             if *h >= act && *h % cx.cfg.retention == 0 {
-                if !cp_sets[0].contains(h) {
+                if let Some(pi) = (0..3).find(|i| !cp_sets[*i].contains(h)) {
                     return Err(format!(
-                        "anchor-retention boundary {h} (interval {}) is inside the scanned range but has no checkpoint (max scanned {:?}, {} checkpoints held)",
+                        "anchor-retention boundary {h} (interval {}) is inside the scanned range but the {:?} tree has no checkpoint there (max scanned {:?}, {} checkpoints held)",
                         cx.cfg.retention,
+                        POOLS[pi],
                         m.scanned.iter().next_back(),
-                        cp_sets[0].len()
+                        cp_sets[pi].len()
                     ));
                 }
                 let behind = m.scanned.iter().next_back().unwrap() - h;
@@ -877,7 +1076,8 @@ pub fn check_trees(w: &mut Wallet, cx: &Ctx, m: &Model) -> Result<Vec<String>, S
             }
         }
     }
-    outcomes.push(format!("checkpoints:{}", if ids.len() > 90 { "many" } else if ids.len() > 1 { "some" } else { "one" }));
+    let n_ids = cp_sets[0].len();
+    outcomes.push(format!("checkpoints:{}", if n_ids > 90 { "many" } else if n_ids > 1 { "some" } else { "one" }));
     Ok(outcomes)
 }
 
@@ -1073,20 +1273,26 @@ pub fn search(cx: &Ctx, checks: &[&StateCheck]) -> (SearchStats, Vec<Failure>) {
         let items: Vec<(usize, Op)> = frontier.iter().enumerate().flat_map(|(i, n)| enabled(u, cfg, &n.model).into_iter().map(move |op| (i, op))).collect();
         let results: Vec<Option<(u128, Node)>> = par_map(
             &items,
-                || db::new_wallet(u, cfg.retention, false),
-                |w, (i, op)| {
+                || Pooled::get(u, cfg.retention),
+                |pw, (i, op)| {
+                    let w = pw.w.as_mut().unwrap();
                     if t0.elapsed().as_secs_f64() > cfg.wall_cap_s {
                         skipped.fetch_add(1, Ordering::Relaxed);
                         return None;
                     }
                     let src = &frontier[*i];
+                    let tp = Instant::now();
                     db::restore(w.db.conn_mut(), &src.snap);
                     w.refresh_accounts();
+                    prof(0, tp);
                     transitions.fetch_add(1, Ordering::Relaxed);
                     let mut hist = src.history.clone();
                     hist.push(op.clone());
                     let pre_digest = if matches!(op, Op::Rewind { .. }) { Some(db::dump_digest(w.db.conn(), &[])) } else { None };
-                    match apply(w, u, &src.model, op) {
+                    let tp = Instant::now();
+                    let applied = apply(w, u, &src.model, op);
+                    prof(1, tp);
+                    match applied {
                         Err(msg) => {
                             push_failure(&failures, Failure { history: hist, msg });
                             None
@@ -1102,11 +1308,16 @@ pub fn search(cx: &Ctx, checks: &[&StateCheck]) -> (SearchStats, Vec<Failure>) {
                             None
                         }
                         Ok(StepResult::Done(model)) => {
+                            let tp = Instant::now();
                             let key = state_key(w, &model);
+                            prof(2, tp);
                             let mut ok = true;
                             let mut outs = vec![];
                             for c in checks {
-                                match c(w, cx, &model) {
+                                let tp = Instant::now();
+                                let r = c(w, cx, &model);
+                                prof(3, tp);
+                                match r {
                                     Ok(o) => outs.extend(o),
                                     Err(msg) => {
                                         push_failure(&failures, Failure { history: hist.clone(), msg });
@@ -1124,13 +1335,16 @@ pub fn search(cx: &Ctx, checks: &[&StateCheck]) -> (SearchStats, Vec<Failure>) {
                             if !ok {
                                 return None;
                             }
-                            Some((key, Node { snap: Arc::new(db::snapshot(w.db.conn())), model, history: hist }))
+                            let tp = Instant::now();
+                            let snap = Arc::new(db::snapshot(w.db.conn()));
+                            prof(4, tp);
+                            Some((key, Node { snap, model, history: hist }))
                         }
                     }
                 },
             );
         if std::env::var("VERIF_PROGRESS").is_ok() {
-            eprintln!("depth {depth}: frontier {} items {} elapsed {:.1}s states {}", frontier.len(), items.len(), t0.elapsed().as_secs_f64(), stats.states);
+            eprintln!("depth {depth}: frontier {} items {} elapsed {:.1}s states {} [{}]", frontier.len(), items.len(), t0.elapsed().as_secs_f64(), stats.states, prof_report());
         }
         let sk = skipped.load(Ordering::Relaxed);
         if sk > 0 {
@@ -1163,6 +1377,22 @@ pub fn search(cx: &Ctx, checks: &[&StateCheck]) -> (SearchStats, Vec<Failure>) {
     (stats, f)
 }
 
+/// Cumulative worker time per phase (restore, apply, state key, checks, snapshot), for tuning.
+pub static PROF_NS: [std::sync::atomic::AtomicU64; 8] = [const { std::sync::atomic::AtomicU64::new(0) }; 8];
+struct ProfGuard(usize, Instant);
+impl Drop for ProfGuard {
+    fn drop(&mut self) {
+        prof(self.0, self.1);
+    }
+}
+fn prof(i: usize, t: Instant) {
+    PROF_NS[i].fetch_add(t.elapsed().as_nanos() as u64, Ordering::Relaxed);
+}
+pub fn prof_report() -> String {
+    let v: Vec<String> = ["restore", "apply", "key", "checks", "snapshot", "pool_view", "roots", "wits"].iter().zip(PROF_NS.iter()).map(|(n, a)| format!("{n}={:.1}s", a.load(Ordering::Relaxed) as f64 / 1e9)).collect();
+    v.join(" ")
+}
+
 pub fn state_key(w: &Wallet, m: &Model) -> u128 {
     let mut k = canon(w.db.conn());
     k.extend_from_slice(m.key().as_bytes());
@@ -1186,6 +1416,21 @@ pub fn replay_history(cx: &Ctx, ops: &[Op], checks: &[&StateCheck]) -> Result<()
             }
             StepResult::Done(n) => {
                 m = n;
+                if std::env::var("VERIF_DEBUG_TREES").is_ok() {
+                    eprintln!("== after step {i} {op:?} (chain {})", m.chain);
+                    for p in POOLS {
+                        let cps = db::query_rows(w.db.conn(), &format!("SELECT checkpoint_id, position FROM {}_tree_checkpoints ORDER BY checkpoint_id", p.prefix()));
+                        eprintln!("   {p:?} {} checkpoints {:?} ... {:?}", cps.len(), &cps[..cps.len().min(6)], &cps[cps.len().saturating_sub(8)..]);
+                        for h in cx.u.first..cx.u.first + 6 {
+                            eprintln!("      truth@{h}: {:?}", (0..cx.u.chains.len()).map(|c| cx.u.chains[c].blocks.get(&h).map(|b| (b.n_commitments, hex::encode(&truth_root(cx.u, c, p, h)[..4])))).collect::<Vec<_>>());
+                        }
+                        let ids: Vec<u32> = db::query_rows(w.db.conn(), &format!("SELECT checkpoint_id FROM {}_tree_checkpoints ORDER BY checkpoint_id", p.prefix())).iter().map(|r| r.parse().unwrap()).collect();
+                        let want = Want { root: vec![true; ids.len()], wit: vec![] };
+                        if let Ok((roots, _)) = pool_view(&mut w, p, &ids, &[], &want) {
+                            eprintln!("      wallet roots: {:?}", ids.iter().zip(roots.iter()).map(|(h, r)| (h, r.map(|r| hex::encode(&r[..4])))).collect::<Vec<_>>());
+                        }
+                    }
+                }
                 for c in checks {
                     c(&mut w, cx, &m).map_err(|e| format!("after step {i} {op:?}: {e}"))?;
                 }
@@ -1219,4 +1464,40 @@ pub fn par_map<T: Sync, W, R: Send>(items: &[T], init: impl Fn() -> W + Sync, f:
         }
     });
     out.into_inner().unwrap().into_iter().map(|x| x.expect("worker result")).collect()
+}
+
+/// Worker wallets kept across `par_map` calls, keyed by (network, retention interval): creating a
+/// wallet runs every schema migration and is far more expensive than one transition. A restored
+/// snapshot replaces the whole database content, so reuse cannot carry state between transitions.
+static WALLET_POOL: Mutex<Vec<(String, u32, Wallet)>> = Mutex::new(Vec::new());
+
+pub struct Pooled {
+    key: (String, u32),
+    pub w: Option<Wallet>,
+}
+
+impl Pooled {
+    pub fn get(u: &Universe, retention: u32) -> Pooled {
+        let key = (format!("{:?}", u.network), retention);
+        let mut g = WALLET_POOL.lock().unwrap();
+        let w = match g.iter().position(|(n, r, _)| *n == key.0 && *r == key.1) {
+            Some(i) => g.swap_remove(i).2,
+            None => {
+                drop(g);
+                db::new_wallet(u, retention, false)
+            }
+        };
+        Pooled { key, w: Some(w) }
+    }
+}
+
+impl Drop for Pooled {
+    fn drop(&mut self) {
+        if std::thread::panicking() {
+            return;
+        }
+        if let Some(w) = self.w.take() {
+            WALLET_POOL.lock().unwrap().push((self.key.0.clone(), self.key.1, w));
+        }
+    }
 }
